@@ -1203,3 +1203,111 @@ Proof.
     rewrite Hr. cbn [bind stmt_res_ok].
     eapply env_ok_same; [| |exact Henv]; reflexivity.
 Qed.
+
+(* ------------------------------------------------------------------------------------------ *)
+(* 8. completeness: a width mismatch between explicitly sized operands is rejected              *)
+(* static form, for every setting of the extra checks (in particular for [impl], the model of the code) *)
+Theorem tc_complete_bin chk E op a b ra rb :
+  tc chk E a = Some ra -> tc chk E b = Some rb ->
+  aex (fst ra) = true -> aex (fst rb) = true -> aw (fst ra) <> aw (fst rb) -> is_shift op = false ->
+  tc chk E (EBin op a b) = None.
+Proof.
+  intros Ta Tb Ea Eb Hw Sh. cbn [tc]. rewrite Ta, Tb.
+  destruct (negb (okc chk ra && okc chk rb)); [reflexivity|].
+  unfold rule_bin. destruct (is_struct (fst ra) || is_struct (fst rb) || is_div op); [reflexivity|].
+  rewrite Sh. unfold unify. rewrite Ea, Eb. destruct (aw (fst ra) =? aw (fst rb)) eqn:C; [lia|reflexivity].
+Qed.
+
+Theorem tc_complete_cmp chk E op a b ra rb :
+  tc chk E a = Some ra -> tc chk E b = Some rb ->
+  aex (fst ra) = true -> aex (fst rb) = true -> aw (fst ra) <> aw (fst rb) ->
+  tc chk E (ECmp op a b) = None.
+Proof.
+  intros Ta Tb Ea Eb Hw. cbn [tc]. rewrite Ta, Tb.
+  destruct (negb (okc chk ra && okc chk rb)); [reflexivity|].
+  unfold rule_cmp. destruct (is_struct (fst ra) || is_struct (fst rb)); [reflexivity|].
+  unfold unify. rewrite Ea, Eb. destruct (aw (fst ra) =? aw (fst rb)) eqn:C; [lia|reflexivity].
+Qed.
+
+Theorem tc_complete_ifexp chk E c a b rc ra rb :
+  tc chk E c = Some rc -> tc chk E a = Some ra -> tc chk E b = Some rb ->
+  aex (fst ra) = true -> aex (fst rb) = true -> aw (fst ra) <> aw (fst rb) ->
+  tc chk E (EIf c a b) = None.
+Proof.
+  intros Tc Ta Tb Ea Eb Hw. cbn [tc]. rewrite Tc, Ta, Tb.
+  destruct (negb (okc chk rc && okc chk ra && okc chk rb)); [reflexivity|].
+  unfold rule_if. destruct (is_struct (fst rc) || is_struct (fst ra) || is_struct (fst rb)); [reflexivity|].
+  unfold unify. rewrite Ea, Eb. destruct (aw (fst ra) =? aw (fst rb)) eqn:C; [lia|reflexivity].
+Qed.
+
+Theorem tc_complete_assign chk E l e le rl r :
+  lhs_expr l = Some le -> tc chk E le = Some rl -> tc chk E e = Some r ->
+  astr (fst rl) = None -> astr (fst r) = None ->
+  aex (fst r) = true -> aw (fst r) <> aw (fst rl) ->
+  tc_assign chk E l e = None.
+Proof.
+  intros Hle Tl Te Sl Sr Er Hw. unfold tc_assign. rewrite Te.
+  destruct (chk 3%nat && aovf (fst r)); [reflexivity|].
+  assert (G : match lhs_expr l with
+              | Some le => match tc chk E le with
+                           | Some rl => match assign_sig chk rl r with Some ns => Some (E, ns) | None => None end
+                           | None => None end
+              | None => None end = None).
+  { rewrite Hle, Tl. unfold assign_sig. cbn zeta. rewrite Sl, Sr, Er. cbn [negb andb].
+    destruct (aw (fst r) =? aw (fst rl)) eqn:C; [lia|reflexivity]. }
+  destruct l; try exact G. discriminate.
+Qed.
+
+(* runtime form (through the soundness theorem): if the two operands evaluate to Bits values of
+   different widths — so that the simulator raises the width-mismatch ValueError — the checker rejects *)
+Theorem tc_complete_bin_runtime E st op a b ra rb n u m v :
+  tc strict E a = Some ra -> tc strict E b = Some rb -> castfree a = true -> castfree b = true -> env_ok E st ->
+  eval (tsig E) st a = Ok (VBits n u) -> eval (tsig E) st b = Ok (VBits m v) -> n <> m -> is_shift op = false ->
+  eval (tsig E) st (EBin op a b) = Err EValue /\ tc strict E (EBin op a b) = None.
+Proof.
+  intros Ta Tb Ca Cb Henv Ea Eb Hnm Sh. destruct ra as [ra la], rb as [rb lb].
+  destruct (tc_sound_gen a E st ra la Ta Ca Henv) as [_ Ra]. destruct (tc_sound_gen b E st rb lb Tb Cb Henv) as [_ Rb].
+  rewrite Ea in Ra. rewrite Eb in Rb. cbn in Ra, Rb. split.
+  - cbn [eval]. rewrite Ea, Eb. cbn [bind eval_bin to_operand spec_binop].
+    destruct (m =? n) eqn:C; [lia|reflexivity].
+  - eapply tc_complete_bin; eauto; cbn [fst]; intuition; lia.
+Qed.
+
+Theorem tc_complete_cmp_runtime E st op a b ra rb n u m v :
+  tc strict E a = Some ra -> tc strict E b = Some rb -> castfree a = true -> castfree b = true -> env_ok E st ->
+  eval (tsig E) st a = Ok (VBits n u) -> eval (tsig E) st b = Ok (VBits m v) -> n <> m ->
+  eval (tsig E) st (ECmp op a b) = Err EValue /\ tc strict E (ECmp op a b) = None.
+Proof.
+  intros Ta Tb Ca Cb Henv Ea Eb Hnm. destruct ra as [ra la], rb as [rb lb].
+  destruct (tc_sound_gen a E st ra la Ta Ca Henv) as [_ Ra]. destruct (tc_sound_gen b E st rb lb Tb Cb Henv) as [_ Rb].
+  rewrite Ea in Ra. rewrite Eb in Rb. cbn in Ra, Rb. split.
+  - cbn [eval]. rewrite Ea, Eb. cbn [bind eval_cmp to_operand spec_cmp].
+    destruct (m =? n) eqn:C; [lia|reflexivity].
+  - eapply tc_complete_cmp; eauto; cbn [fst]; intuition; lia.
+Qed.
+
+(* ------------------------------------------------------------------------------------------ *)
+(* 9. the statement does NOT hold for the checker as implemented ([impl]): machine-checked
+      counterexamples, one per missing check (each is also found on the real code by harness/c10.py) *)
+Definition G8 : decls := [ (0%nat, [], {| fw := 8; flo := 0; fstruct := None |});      (* s.a : Bits8 in  *)
+                           (1%nat, [], {| fw := 8; flo := 0; fstruct := None |});      (* s.o : Bits8 out *)
+                           (2%nat, [], {| fw := 2; flo := 0; fstruct := None |});      (* s.o2 : Bits2 out *)
+                           (3%nat, [], {| fw := 3; flo := 0; fstruct := None |}) ].    (* s.o3 : Bits3 out *)
+Definition accepted_but_raises (b : list stmt) : Prop :=
+  (exists ws, check_block impl G8 b = Some ws) /\ check_block strict G8 b = None /\
+  exec_block G8 b (init_state [5; 0; 0; 0]) = Err EValue.
+
+Example cex_S1 : accepted_but_raises [SAssign 0 (LSig 1 []) (ELit 300) true].                       (* s.o @= 300 *)
+Proof. split; [eexists|split]; vm_compute; reflexivity. Qed.
+Example cex_S2 : accepted_but_raises [SAssign 0 (LSig 3 []) (EBin Add (ESized 8 3) (ESized 8 4)) true].   (* s.o3 @= Bits8(3) + Bits8(4) *)
+Proof. split; [eexists|split]; vm_compute; reflexivity. Qed.
+Example cex_S3 : accepted_but_raises [SFor 0 0 4 1 [SAssign 0 (LSig 2 []) (EBin Add (ELoop 0) (ELit 1)) true]].  (* for i in range(4): s.o2 @= i + 1 *)
+Proof. split; [eexists|split]; vm_compute; reflexivity. Qed.
+Example cex_S4 : accepted_but_raises [SAssign 0 (LSig 1 []) (EBin Add (ESig 0 []) (EBin Sub (ELit 1) (ELit 2))) true].  (* s.o @= s.a + (1 - 2) *)
+Proof. split; [eexists|split]; vm_compute; reflexivity. Qed.
+Example cex_S5 : accepted_but_raises
+  [SAssign 0 (LSig 1 []) (EBin Add (ESig 0 []) (EIf (EIdx (ESig 0 []) (ELit 1)) (ELit 3) (ELit 300))) true].   (* s.o @= s.a + (3 if s.a[1] else 300) *)
+Proof. split; [eexists|split]; vm_compute; reflexivity. Qed.
+Example cex_S10 : accepted_but_raises
+  [SAssign 0 (LSig 2 []) (EIf (EIdx (ESig 0 []) (ELit 1)) (EBin Add (ELit 1) (ELit 2)) (ESig 0 [])) true].     (* s.o2 @= (1 + 2) if s.a[1] else s.a *)
+Proof. split; [eexists|split]; vm_compute; reflexivity. Qed.
